@@ -146,6 +146,14 @@ func detShort(b []byte) string {
 	if len(b) <= 24 {
 		return hex.EncodeToString(b)
 	}
+	if len(b) > 1<<20 {
+		// giant values (the 8 MiB mutation class): length + head + tail; hashing them whole for
+		// every dump after every command dominated the run time
+		hh := sha1.New()
+		hh.Write(b[:4096])
+		hh.Write(b[len(b)-4096:])
+		return fmt.Sprintf("#%d:~%s", len(b), hex.EncodeToString(hh.Sum(nil)[:8]))
+	}
 	h := sha1.Sum(b)
 	return fmt.Sprintf("#%d:%s", len(b), hex.EncodeToString(h[:8]))
 }
